@@ -25,6 +25,7 @@ U == INSTANCE CPyUnits
 V == INSTANCE Versions
 P == INSTANCE DecodeProps
 L == INSTANCE Lines
+EN == INSTANCE Encode
 
 \* a module-level code object with small tables (tokens are arbitrary distinct numbers; the
 \* `*_keys` say which entries the encoder could confuse: none here)
@@ -60,7 +61,7 @@ Unit(cls, b) ==
     \* the prefix over to the next instruction, the interpreter loop (and the library) do not, so
     \* CPython has no single reading of such a stream; no compiler emits it.
     /\ (cls = "NOARG") => s.n = 0
-    /\ LET u == <<cls, cls, b>> IN
+    /\ LET u == <<cls, IF cls = "EXT" THEN "EXTENDED_ARG" ELSE cls, b>> IN
         /\ units' = Append(units, u)
         /\ s' = D!DecodeUnit(s, u, Len(units) + 1, [Code EXCEPT !.units = Append(units, u)], Hdr, LM, Scale)
     /\ UNCHANGED done
@@ -107,6 +108,36 @@ DecodeModel ==
                 bad == SelectSeq([i \in DOMAIN cs |-> IF cs[i][2] THEN "" ELSE cs[i][1]], LAMBDA x: x # "")
             IN /\ Emit => PrintT("@@" \o ToJson(<<Ver, units, r.instrs, r.block_starts, bad>>) \o "@@")
                /\ bad = <<>>
+
+\* C01 at design level: the reference encoder applied to the reference decoder's output gives the
+\* stream, the tables and the header back (the private override fields carry enough)
+AllToks == {Base.names[i] : i \in DOMAIN Base.names} \cup {Base.varnames[i] : i \in DOMAIN Base.varnames}
+           \cup {Base.cellvars[i] : i \in DOMAIN Base.cellvars} \cup {Base.freevars[i] : i \in DOMAIN Base.freevars}
+           \cup {Base.consts[i] : i \in DOMAIN Base.consts}
+KM == [t \in AllToks |-> <<t + 100, t + 100>>]
+
+DataOf(r) ==
+    [instrs |-> r.instrs, block_starts |-> r.block_starts, additional |-> r.additional, addline |-> <<>>,
+     is_fn |-> FALSE, args |-> [po |-> <<>>, pk |-> <<>>, va |-> <<>>, ko |-> <<>>, vk |-> <<>>],
+     doc |-> <<>>, fn_type |-> "", annotations |-> FALSE, nested |-> FALSE,
+     freevars |-> Base.freevars, first |-> 1]
+
+\* Domain of C01: what the compilers emit.  The <=3.9 peephole leaves redundant EXTENDED_ARG
+\* prefixes in front of jumps only (whose operands it shrinks in place); every other instruction
+\* has the minimal width.  TLC shows the restriction is necessary: `EXTENDED_ARG 0; LOAD_FAST 0`
+\* does not survive a round trip (the data model keeps the width of jumps only).
+MinimalWidths ==
+    \A j \in DOMAIN U!Instructions(units) :
+        LET i == U!Instructions(units)[j] IN U!IsJump(i) \/ i.n = EN!InstrSize(i.arg)
+
+RoundTripModel ==
+    (done /\ MinimalWidths) => LET r == Result
+                e == EN!Encode(DataOf(r), Ver, KM, {51}, 150, 20)
+            IN /\ e.exc = ""
+               /\ e.units = [k \in DOMAIN units |-> <<units[k][2], units[k][3]>>]
+               /\ e.names = Base.names /\ e.varnames = Base.varnames /\ e.cellvars = Base.cellvars
+               /\ e.consts = Base.consts /\ e.freevars = Base.freevars
+               /\ e.flags = {} /\ e.argcount = 0
 
 \* vacuity witnesses (each is expected to be VIOLATED: the model does reach such states)
 NoJumpToPrefixed ==
